@@ -17,6 +17,8 @@ def run(tier, wd):
     trs, rows = tc.run_tree(rep, wd, binpath, alphabet, 3 if q else 4, ["continue", "exit", "panic"], "c07")
     # commands that set their own error policy in their initialiser: the policy of the command that rejects decides
     tc.add_tree(rep, wd, binpath, alphabet, ["continue", "exit", "panic"], "c07-policy", T.policy_tree(), trs, rows)
+    # a multi-valued Int option: every written value must be convertible (numerals padded with blanks are not)
+    tc.add_tree(rep, wd, binpath, alphabet, ["continue", "exit", "panic"], "c07-ints", T.ints_tree(), trs, rows)
     kinds, by_level = {}, {}
     nontriv = 0
     for c, r in rows:
